@@ -294,6 +294,24 @@ def run(spec, mode='sync', rec=None, chooser=None, keep_session=False, **core_kw
             kw['wcap'] = (lambda n: r.randint(1, n)) if w == 'random' else (lambda n: max(1, min(n, w)))
         s = env.Session(mode, dev, **kw)
         rr.sess = s
+        if spec.get('mangle'):
+            # the n-th WRITE of the device is damaged on the wire: dict(nth=, kind='check0' | 'check+1' | 'flip')
+            mg = spec['mangle']
+            cnt = {'n': 0}
+
+            def mangle(meta, mg=mg, cnt=cnt):
+                b = bytearray(meta['bytes'])
+                if meta['pk']['cmd'] == 'WRTE' and len(b) > 24:
+                    cnt['n'] += 1
+                    if cnt['n'] == mg['nth']:
+                        if mg['kind'] == 'check0':
+                            b[16:20] = b'\0\0\0\0'
+                        elif mg['kind'] == 'check+1':
+                            b[16:20] = wire.le32((sum(b[24:]) + 1) & 0xFFFFFFFF)
+                        else:
+                            b[24] ^= 0x01
+                return bytes(b)
+            s.core.mangle = mangle
         if spec.get('lid0') is not None:
             s.device._local_id = spec['lid0']
         if spec.get('connect', True):
@@ -518,6 +536,9 @@ def run_op(s, op, a, tmp, i, rr):
             return s.call('reboot', fastboot=True, _info=dict(i=i), **tkw)
         return s.call('reboot', _info=dict(i=i), **tkw)
     def P(x):
+        if op.get('path_as') == 'purepath':
+            import pathlib
+            return pathlib.PurePosixPath(x)         # a device path object instead of str / bytes (not supported: both classes must refuse alike)
         return x.encode('utf8') if op.get('path_bytes') else x
     if api in ('stat', 'list'):
         return s.call(api, P(a['path']), _info=dict(i=i), **tkw)
@@ -539,6 +560,9 @@ def run_op(s, op, a, tmp, i, rr):
         else:
             p = os.path.join(tmp, 'dst%d.bin' % i)
             how = op.get('local_as', 'str')
+            if how == 'missing_dir':
+                p = os.path.join(tmp, 'no-such-dir', 'dst%d.bin' % i)          # cannot be opened for writing
+                how = 'str'
             if how == 'fd':
                 target = os.open(p, os.O_WRONLY | os.O_CREAT | os.O_TRUNC, 0o600)      # open() accepts a file descriptor (and closes it)
             else:
